@@ -88,6 +88,11 @@ impl EventSource for SocketRead<'_> {
         // after register the coroutine, it's possible that other thread run it immediately
         // and cause the process after it invalid, this is kind of user and kernel competition
         // so we need to delay the drop of the EventSource, that's why _g is here
+        // register the cancel io data before the coroutine is published: afterwards it
+        // can be resumed and block somewhere else, a registration done then would be
+        // stale and make a cancel wake whoever waits on this socket at that time
+        #[cfg(feature = "io_cancel")]
+        cancel.set_io(io_data.clone());
         io_data.co.store(co);
         // till here the io may be done in other thread
 
@@ -97,14 +102,11 @@ impl EventSource for SocketRead<'_> {
             return io_data.fast_schedule();
         }
 
+        // re-check the cancel status. a canceller that came before the coroutine was
+        // stored has consumed the registration and found nothing: wake it up here
         #[cfg(feature = "io_cancel")]
-        {
-            // register the cancel io data
-            cancel.set_io(io_data.clone());
-            // re-check the cancel status
-            if cancel.is_canceled() {
-                unsafe { cancel.cancel() };
-            }
+        if cancel.is_canceled() {
+            io_data.schedule();
         }
     }
 }
